@@ -95,6 +95,13 @@ Definition epoch_instant (repr : str) : option Z :=
       else Some (sec * 10 ^ 9)
   end.
 
+(* the tracked names, each once, in the order of first listing *)
+Fixpoint dedup (seen : list str) (ms : list str) : list str :=
+  match ms with
+  | [] => []
+  | m :: r => if mem m seen then dedup seen r else m :: dedup (m :: seen) r
+  end.
+
 Section LogParse.
   Variable filt : Type.
   Variable default_filter : filt.                         (* common.DefaultFilter *)
@@ -187,12 +194,13 @@ Section LogParse.
     | Some v => match parse_timestamp v with Some t => t | None => TsText zero_time end
     end.
 
-  (* for _, m := range metrics { value, ok := jsonObj[m].(string); if !ok {continue}; append }  -- no break *)
+  (* for i, m := range metrics { if slices.Contains(metrics[:i], m) {continue};
+                                 value, ok := jsonObj[m].(string); if !ok {continue}; append } *)
   Definition json_records (ms : list str) (kvs : list (str * jval)) : list mlog :=
     flat_map (fun m => match jlookup m kvs with
                        | Some (JString v) => [MLog (json_timestamp kvs) m v]
                        | _ => []
-                       end) ms.
+                       end) (dedup [] ms).
 
   Fixpoint json_lines (ms : list str) (lines : list str) : outcome (list mlog) :=
     match lines with
